@@ -220,6 +220,24 @@ pub fn generate(ctx: &mut Ctx) {
         }
         bi += 1;
     }
+    // octets an implementation might use as an internal separator or sentinel, against a real segment boundary
+    for x in ["%00", "%01", "%FF", "%2F", "%2f", "%2E", "%3F", "%23", "%00%00", "%5C"] {
+        if ctx.mine(bi) {
+            for (p, q) in [(format!("a{}b", x), "a/b".to_string()), (format!("a{}", x), "a/".to_string()), (format!("{}a", x), "/a".to_string()), (format!("/a{}", x), "/a/".to_string()), (format!("/a{}{}b", x, x), "/a//b".to_string()), (x.to_string(), "/".to_string()), (x.to_string(), String::new()), (format!("a/{}", x), "a/".to_string()), (format!("a/{}/b", x), "a//b".to_string())] {
+                for (l, r) in [(&p, &q), (&q, &p)] {
+                    ctx.run(Case::new("comp").arg(l.as_str()).arg(r.as_str()).num(1));
+                    ctx.run(Case::new("pair").arg(format!("s:{}", l)).arg(format!("s:{}", r)));
+                    ctx.run(Case::new("pair").arg(format!("s://h/{}?q", l.trim_start_matches('/'))).arg(format!("s://h/{}?q", r.trim_start_matches('/'))));
+                }
+            }
+            // the same for the other decoded components: the sentinel inside versus the component cut there
+            for (l, r) in [(format!("//u{}v@h", x), "//u@h".to_string()), (format!("//h{}i", x), "//h".to_string()), (format!("?a{}b", x), "?a".to_string()), (format!("#a{}b", x), "#a".to_string()), (format!("?{}", x), "?".to_string()), (format!("#{}", x), "#".to_string())] {
+                ctx.run(Case::new("pair").arg(l.as_str()).arg(r.as_str()));
+                ctx.run(Case::new("pair").arg(r.as_str()).arg(l.as_str()));
+            }
+        }
+        bi += 1;
+    }
     for (a, b) in [("http", "http"), ("http", "HTTP"), ("a", "b"), ("a+", "a-")] {
         if ctx.mine(bi) {
             ctx.run(Case::new("comp").arg(a).arg(b).num(7));
